@@ -133,13 +133,14 @@ def run(ctx):
                     end = j
                     break
             offenders = []
+            inlined_sites = {ev[1] for ev in evs if ev[0] in ("inlined", "enter")}
             for ev in evs[first + 1 : end]:
                 k = ev[0]
                 if k in HARMLESS_AFTER:
                     continue
                 if k == "call" and ev[2] in ("method:write", "method:close", "method:flush", "method:writelines") and handle is not None and ev[3] and ev[3][0] == handle:
                     continue
-                if k == "call" and ev[2].startswith("repo:") and (ev[2][5:].split("[")[0] in inline):
+                if k == "call" and ev[2].startswith("repo:") and (ev[2][5:].split("[")[0].split("<")[0] in inline or ev[1] in inlined_sites):
                     continue  # summary marker of an inlined callee (its own events were checked in place)
                 if k == "call" and evs[first][0] == "fs-mutation" and ev[1] == evs[first][1]:
                     continue  # the mutating call itself
